@@ -74,7 +74,7 @@ func leftovers(c *caseCtx, w *world) (kinds []string, files []string) {
 		switch {
 		case strings.HasSuffix(p, ".keyring.new"):
 			ks["keyring.new"] = true
-		case c.j.kind == "v1" && reTmpName.MatchString(p):
+		case isV1(c.j.kind) && reTmpName.MatchString(p):
 			ks["tempfile"] = true
 		default:
 			ks["other"] = true
@@ -231,7 +231,7 @@ func (m *monitor) check(c *caseCtx, phase string, d *ksdump.Dump, w *world) stri
 // is lost at the next restart, when the handle silently goes back to the old key.
 func (m *monitor) checkSameHandleAgainstStorage(c *caseCtx, phase string, dSame, dFresh *ksdump.Dump, w *world) {
 	r := m.r
-	v2 := c.j.kind != "v1"
+	v2 := !isV1(c.j.kind)
 	diag := func() map[string]interface{} {
 		kinds, files := leftovers(c, w)
 		return map[string]interface{}{"same_handle_after_fault": dSame.Render(), "fresh_handle_after_fault": dFresh.Render(), "leftover_kinds": kinds, "leftover_files": files}
@@ -272,7 +272,7 @@ func isAggregate(g keyGroup, n string) bool {
 func (m *monitor) checkGroup(c *caseCtx, phase string, g keyGroup, d *ksdump.Dump, diag diagFn) string {
 	r := m.r
 	pre, post := c.ff.pre, c.ff.post
-	v2 := c.j.kind != "v1"
+	v2 := !isV1(c.j.kind)
 	kind := c.j.op.kind
 	r.Count("target_groups_checked", 1)
 	isNew, isOld := false, true
@@ -468,7 +468,7 @@ func (m *monitor) checkRetry(c *caseCtx, phase string, ro ksrig.FaultOutcome, w 
 func (m *monitor) checkAfterRetry(c *caseCtx, phase string, d *ksdump.Dump, w *world) {
 	r := m.r
 	pre, post := c.ff.pre, c.ff.post
-	v2 := c.j.kind != "v1"
+	v2 := !isV1(c.j.kind)
 	diag, tag := m.diagnose(c, "after_retry", d, w)
 	m.checkCommon(c, phase, d, diag, tag)
 	for _, g := range c.j.op.groups {
